@@ -645,6 +645,20 @@ class HierOps:
         self.stats['derive:' + how] += 1
         return self.adopt_index(r, op['out'], f'{m.cls}.{how}', op)
 
+    def _length_probes(self, obj, m, fail, o):
+        '''A held tuple with surplus elements (whatever they are), or cut short, is not a member.'''
+        t = m.raw[0]
+        for extra in (None, 0, 2, '', False):
+            for cand in (tuple(t) + (extra,), tuple(t) + (extra, extra)):
+                st, c = call(lambda: cand in obj)
+                if st == 'ok' and c is not False:
+                    fail(o, f'tuple {cand!r} is longer than the depth but reported as a member')
+        if m.depth > 1:
+            short = tuple(t)[:-1]
+            st, c = call(lambda: short in obj)
+            if st == 'ok' and c is not False:
+                fail(o, f'tuple {short!r} is shorter than the depth but reported as a member')
+
     # ------------------------------------------------------------------ reads that only warm caches
     def do_ih_warm(self, op, dec_):
         e = self.get(op['h'], ('ih',))
@@ -974,6 +988,7 @@ class HierOps:
                         st, c = call(lambda: t in obj)
                         if st == 'ok' and c is not False:
                             fail(o, f'tuple {t!r} is not held but reported as a member')
+                self._length_probes(obj, m, fail, o)
             return
         if P == 'C05':
             o = 'C05.grow' if (pend or (e.go and e.extra.get('last_growth'))) else 'C05.views'
@@ -993,6 +1008,8 @@ class HierOps:
             if st == 'raise' or sh != (n, m.depth):
                 if not (n == 0):
                     fail('C05.views', f'shape {sh!r} != {(n, m.depth)}')
+            if n:
+                self._length_probes(obj, m, fail, 'C05.views')
             if n:
                 for dd in range(m.depth):
                     st, col = call(lambda: arr_cells(obj.values_at_depth(dd)))
